@@ -19,6 +19,8 @@ pub struct Probes {
     pub reload: bool,
     pub cuts: bool,
     pub slice: bool,
+    /// C04: add() on the graphs slice() returns
+    pub slice_add: bool,
     pub exports: bool,
     pub texts: bool,
     /// other configurations (n, cap) every history is replayed under, C19
@@ -154,6 +156,9 @@ impl HxCfg {
         }
         if p.slice {
             v.push("slice".into());
+        }
+        if p.slice_add {
+            v.push("add-on-slices".into());
         }
         if p.exports {
             v.push("exports".into());
